@@ -428,6 +428,12 @@ func (f *Footer) DecRef() {
 		f.SegmentLocs.DecRef()
 		f.SegmentLocs = nil
 		f.ss = nil
+
+		// The parent footer holds one ref-count on each child footer.
+		for _, childFooter := range f.ChildFooters {
+			childFooter.DecRef()
+		}
+		f.ChildFooters = nil
 	}
 	f.m.Unlock()
 }
